@@ -1821,7 +1821,17 @@ func (g *G) funcDef() ts.Stmt {
 	fi.MultiAssigns = g.Tags["multi-assign"]+g.Tags["swap"]+g.Tags["multi-assign-inc-and-itoa"] > maBefore
 	if nr > 0 {
 		r := ts.Return{}
+		// several returned values that are DIRECTLY call results (return high(n), low(n)): every result must be saved
+		// before the next call overwrites the return registers
+		direct := nr > 1 && g.chance("return-direct-calls", 35)
 		for _, rt := range fi.Rets {
+			if direct {
+				if cs := g.callsReturning(rt); len(cs) > 0 {
+					r.Vals = append(r.Vals, g.callExpr(cs[g.intn("fn", 0, len(cs)-1)], 1))
+					g.tag("return-of-direct-calls")
+					continue
+				}
+			}
 			r.Vals = append(r.Vals, g.expr(rt, g.intn("ret-depth", 0, g.cfg.ExprDepth)))
 		}
 		body = append(body, r)
